@@ -314,3 +314,97 @@ def rule_memo_keys(ctx, rep, rid: str, modules=("compiler", "parser", "vm", "con
             else:
                 rep.ok(rid, key)
     rep.ok(rid, "memo-tables", {"examined": n})
+
+
+# ---- the constant pool identifies values with the host's == ---------------------------------------------
+def rule_constant_pool_identity(ctx, rep, rid: str) -> None:
+    """The constant pool hands out one slot per value, found with the host's `in` / `.index` (==).  For the host
+    0 == -0.0 and 1 == True == 1.0, which ECMAScript keeps apart (sign of zero, boolean vs number).  Either the
+    pool compares type and sign as well, or no value a caller adds can be a negative zero or a boolean: literal
+    tokens carry no sign, so the danger is every COMPUTED constant (folded negation or arithmetic)."""
+    rep.rule(rid, "the constant pool either compares type and sign of zero when it looks for an existing slot, or every value the compiler adds to it is a name, a string/number literal's value, a regex (pattern, flags) pair or a compiled function: a constant computed at compile time (folded negation or arithmetic, a boolean) could be a negative zero or True and would share the slot of 0 or 1", floor=1)
+    comp = ctx.tree.class_named("Compiler")
+    pools = []
+    for f in comp.all_methods:
+        if isinstance(f.node, ast.Lambda):
+            continue
+        appends = [c for c in f.own_nodes() if isinstance(c, ast.Call) and isinstance(c.func, ast.Attribute) and c.func.attr == "append" and norm(c.func.value) == "self.constants"]
+        looks = [c for c in f.own_nodes() if (isinstance(c, ast.Compare) and any(isinstance(o, (ast.In, ast.NotIn)) for o in c.ops) and norm(c.comparators[0]) == "self.constants") or (isinstance(c, ast.Call) and isinstance(c.func, ast.Attribute) and c.func.attr == "index" and norm(c.func.value) == "self.constants") or (isinstance(c, (ast.For, ast.comprehension)) and "self.constants" in norm(c.iter))]
+        if appends and looks:
+            pools.append(f)
+    if not pools:
+        # no deduplication by equality at all: nothing to identify
+        if not any(isinstance(c, ast.Call) and isinstance(c.func, ast.Attribute) and c.func.attr == "append" and norm(c.func.value) == "self.constants" for f in comp.all_methods if not isinstance(f.node, ast.Lambda) for c in f.own_nodes()):
+            raise AnalysisError("no function appends to self.constants (anchor vanished)")
+        rep.ok(rid, "constant-pool:no-equality-lookup", {"note": "constants are not looked up by equality"})
+        return
+    for pf in pools:
+        src = " ".join(norm(s) for s in pf.node.body)
+        typed = "type(" in src and any(t in src for t in ("copysign", "repr(", "is_negative_zero", "math.atan2"))
+        if typed:
+            rep.ok(rid, f"{pf.qual}:lookup-compares-type-and-sign")
+            continue
+        # every caller (transitively through wrappers that pass a parameter on)
+        wrappers = {pf.name}
+        changed = True
+        while changed:
+            changed = False
+            for f in comp.all_methods:
+                if isinstance(f.node, ast.Lambda) or f.name in wrappers:
+                    continue
+                rets = [r for r in f.own_nodes() if isinstance(r, ast.Return) and isinstance(r.value, ast.Call) and isinstance(r.value.func, ast.Attribute) and r.value.func.attr in wrappers and len(r.value.args) == 1 and isinstance(r.value.args[0], ast.Name) and r.value.args[0].id in f.params()]
+                if rets and len(f.node.body) <= 3:
+                    wrappers.add(f.name)
+                    changed = True
+        n = 0
+        for f in ctx.tree.funcs:
+            if f.module.name != "compiler" or isinstance(f.node, ast.Lambda) or f.name in wrappers:
+                continue
+            for c in f.own_nodes():
+                if not (isinstance(c, ast.Call) and isinstance(c.func, ast.Attribute) and c.func.attr in wrappers and norm(c.func.value) == "self" and len(c.args) == 1):
+                    continue
+                n += 1
+                a = c.args[0]
+                why = _computed_constant(a, c, f)
+                key = f"{f.qual}:{pf.name}({norm(a)[:40]})"
+                if why is None:
+                    rep.ok(rid, key)
+                else:
+                    rep.bad(rid, key, f"{f.qual} adds {why} to the constant pool, which looks for an existing slot with the host's == ({pf.qual}): a negative zero shares the slot of 0 (and True that of 1), so `-0` loads +0 once the function also mentions 0, or the other way round depending on which came first", f"{f.module.rel}:{c.lineno}")
+        if n < 5:
+            raise AnalysisError(f"{rid}: only {n} constant-pool additions found")
+
+
+def _computed_constant(a: ast.AST, at: ast.AST, f: Func) -> Optional[str]:
+    """A description when the value `a` is computed at compile time (not a token's own value, a name or a function)."""
+    def outer(e: ast.AST):
+        # the expression's own operators: what is passed INTO a call does not make the call's result computed
+        yield e
+        if isinstance(e, ast.Call):
+            return
+        for ch in ast.iter_child_nodes(e):
+            yield from outer(ch)
+
+    def computed(e: ast.AST) -> Optional[str]:
+        for x in outer(e):
+            if isinstance(x, ast.UnaryOp) and isinstance(x.op, ast.USub):
+                return f"the negated value `{norm(e)[:40]}`"
+            if isinstance(x, ast.BinOp) and isinstance(x.op, (ast.Add, ast.Sub, ast.Mult, ast.Div, ast.Mod, ast.Pow, ast.FloorDiv)) and not (isinstance(x.left, ast.Constant) and isinstance(x.left.value, str)):
+                return f"the computed value `{norm(e)[:40]}`"
+            if isinstance(x, ast.Constant) and isinstance(x.value, bool):
+                return f"the boolean `{norm(e)[:40]}`"
+            if isinstance(x, ast.Call) and norm(x.func) in ("float", "int", "bool", "math.copysign", "operator.neg"):
+                return f"the converted value `{norm(e)[:40]}`"
+        return None
+
+    if isinstance(a, ast.Name):
+        # every assignment of that local in the function
+        for s in f.own_nodes():
+            if isinstance(s, ast.Assign) and any(isinstance(t, ast.Name) and t.id == a.id for t in s.targets):
+                w = computed(s.value)
+                if w:
+                    return w + f" (assigned to `{a.id}` at line {s.lineno})"
+            if isinstance(s, ast.AugAssign) and isinstance(s.target, ast.Name) and s.target.id == a.id:
+                return f"the computed value `{norm(s)[:40]}`"
+        return None
+    return computed(a)
